@@ -1,6 +1,6 @@
 #!/bin/bash
 # neutral_intake.sh Cxx a|b : copy a behaviour-preserving refactoring written by a sub-agent into /verif/neutral/Cxx-a/
-P="$1"; X="$2"; S=/tmp/neutout/$P/$X; D=/verif/neutral/$P-$X
+P="$1"; X="$2"; S=${NEUTSRC:-/tmp/neutout}/$P/$X; D=/verif/neutral/$P-${AS:-$X}
 [ -f "$S/patch.diff" ] || { echo "no $S/patch.diff"; exit 1; }
 mkdir -p "$D"; cp "$S/patch.diff" "$S/neutral_demo.rs" "$S/notes.md" "$D"/ 2>/dev/null
 SUITE="cargo test --offline"; DEMO="cargo test --offline --test neutral_demo"
@@ -11,6 +11,6 @@ p,x,demo,suite=sys.argv[1:5]
 json.dump(dict(property=p, kind='neutral refactoring: the property and the documented behaviour still hold; every check must stay silent',
   origin=f'independent sub-agent given only the text of {p} and a scratch worktree, asked for a substantial behaviour-preserving refactoring',
   demo_cmd=demo, suite_cmd=suite, what_was_run='tools/seeded.py --neutral: pinned suite with the patch (debug and release), the agent\'s own demonstration with the patch, then all twenty quick checks'),
-  open(f'/verif/neutral/{p}-{x}/meta.json','w'), indent=1)
+  open(f"/verif/neutral/{p}-{__import__('os').environ.get('AS',x)}/meta.json",'w'), indent=1)
 PY
 echo "$D: $(grep -c '^diff' $D/patch.diff) file(s), $(wc -l < $D/patch.diff) lines"
